@@ -268,6 +268,12 @@ def run(ctx):
         fill3 = {"late": {"x": 1}}
         seq = [(skeleton, "w"), (fill1, "a"), (fill2, "a"), (fill3, "a")][: rng.randrange(2, 5)]
         cases.append({"fmt": fmt, "seq": seq, "alias": {}, "reread": {}})
+    # a list is a leaf for the merge: lists that hold dicts (or lists of dicts) on both sides keep the file's list as it is
+    for i in range(ctx.n(12, 120)):
+        fmt = ["native", "foam", "json"][i % 3]
+        first = {"patches": [{"id": 1, "kind": "wall"}, {"id": 2}], "grid": {"rows": [[{"a": 1}], [{"b": 2}]], "n": 2}}
+        second = {"patches": [{"id": 9, "u": 1.5}, {"kind": "outlet"}, {"extra": True}], "grid": {"rows": [[{"a": 5, "z": 0}], [{"c": 3}]], "m": 1}, "late": i}
+        cases.append({"fmt": fmt, "seq": [(first, "w"), (second, "a")] + ([({"patches": [], "late": 0}, "a")] if i % 2 else []), "alias": {}, "reread": {}})
     for c in cases:
         r = oracle(c)
         if r:
